@@ -399,40 +399,56 @@ def reverseDiff (cfg : Cfg) (n : Nat) (d : Diff) (s : State) : Except Err Diff :
   let replaced ← d.replaced.mapM (revField cfg n s.hClass)
   return { Diff.empty with storage := stor, nonces := nonces, replaced := replaced }
 
-/-- `State.Revert` of either backend. `casm` is the CASM metadata bucket as it is on disk. -/
-def revertState (cfg : Cfg) (n ver : Nat) (su : SU) (casm : Map Nat CasmMeta) (s : State) : Except Err State := do
-  let d := su.diff
-  if rootOf ver s ≠ su.newRoot then throw .revRootNew
-  let rd ← reverseDiff cfg n d s
+/-- class part of `State.Revert`: `removeDeclaredClasses` and `revertMigratedCasmClasses`
+(`casm` is the CASM metadata bucket as it is on disk) -/
+def revertClasses (cfg : Cfg) (n : Nat) (d : Diff) (casm : Map Nat CasmMeta) (s : State) : Except Err State := do
   let s1 ← removeDeclared n s (d.declV0 ++ Map.keys d.declV1)
   let s1 := if cfg.removeImplicitClasses then removeImplicit n s1 (d.deployed.map (·.2)) else s1
   let tr ← unmigrateTrie casm s1.classTrie d.migrated
-  let s2 : State := { s1 with classTrie := tr }
+  return { s1 with classTrie := tr }
+
+/-- purge of the deployed contracts (`purgeContract` fails when the contract is not there) -/
+def purgeDeployed (cs : Map Nat Contract) (dep : List (Nat × Nat)) : Except Err (Map Nat Contract) :=
+  dep.foldlM (fun (cs : Map Nat Contract) e =>
+    match Map.get cs e.1 with
+    | none => (throw Err.contractMissing : Except Err (Map Nat Contract))
+    | some _ => pure (Map.del cs e.1)) cs
+
+/-- contract part of the legacy `Revert`: apply the reverse diff without logging, delete the logs
+of the block, purge the deployed contracts, purge system contracts with empty storage -/
+def revertContractsLegacy (n : Nat) (d rd : Diff) (s2 : State) : Except Err State := do
   let cs1 ← applyReplaced s2.contracts rd.replaced
   let cs2 ← applyNonces cs1 rd.nonces
   let cs3 ← touchStorage n cs2 rd.storage
-  let s3 : State ←
-    if cfg.legacy then do
-      let hStorage := Map.delAll s2.hStorage (histKeys n (Map.keys d.storage))
-      let hNonce := Map.delAll s2.hNonce (histKeys1 n (Map.keys d.nonces))
-      let hClass := Map.delAll s2.hClass (histKeys1 n (Map.keys d.replaced))
-      let (stor, _) := writeStorageLegacy n s2.storage [] false rd.storage
-      -- purge deployed contracts (`purgeContract` fails when the contract is not there)
-      let cs4 ← d.deployed.foldlM (fun (cs : Map Nat Contract) e =>
-        match Map.get cs e.1 with
-        | none => throw Err.contractMissing
-        | some _ => pure (Map.del cs e.1)) cs3
-      pure (purgeSysLegacy { s2 with contracts := cs4, storage := stor, hStorage := hStorage, hNonce := hNonce, hClass := hClass })
-    else do
-      let stor := writeStorage s2.storage rd.storage
-      -- deployed contracts: record and storage nodes deleted
-      let cs4 := Map.delAll cs3 (Map.keys d.deployed)
-      let stor := Map.filterK stor (fun k => !(Map.has d.deployed k.1))
-      let sA := purgeSysNew { d with deployed := [] } { s2 with contracts := cs4, storage := stor }
-      pure { sA with
-        hStorage := Map.delAll s2.hStorage (histKeys n (Map.keys d.storage)),
-        hNonce := Map.delAll (Map.delAll s2.hNonce (histKeys1 n (Map.keys d.nonces))) (histKeys1 n (Map.keys d.deployed)),
-        hClass := Map.delAll (Map.delAll s2.hClass (histKeys1 n (Map.keys d.replaced))) (histKeys1 n (Map.keys d.deployed)) }
+  let hStorage := Map.delAll s2.hStorage (histKeys n (Map.keys d.storage))
+  let hNonce := Map.delAll s2.hNonce (histKeys1 n (Map.keys d.nonces))
+  let hClass := Map.delAll s2.hClass (histKeys1 n (Map.keys d.replaced))
+  let stor := (writeStorageLegacy n s2.storage [] false rd.storage).1
+  let cs4 ← purgeDeployed cs3 d.deployed
+  return purgeSysLegacy { s2 with contracts := cs4, storage := stor, hStorage := hStorage, hNonce := hNonce, hClass := hClass }
+
+/-- contract part of the new backend's `Revert`: apply the reverse diff, delete the deployed
+contracts with their storage nodes, commit (system-contract purge), delete the history entries -/
+def revertContractsNew (n : Nat) (d rd : Diff) (s2 : State) : Except Err State := do
+  let cs1 ← applyReplaced s2.contracts rd.replaced
+  let cs2 ← applyNonces cs1 rd.nonces
+  let cs3 ← touchStorage n cs2 rd.storage
+  let stor := writeStorage s2.storage rd.storage
+  let cs4 := Map.delAll cs3 (Map.keys d.deployed)
+  let stor := Map.filterK stor (fun k => !(Map.has d.deployed k.1))
+  let sA := purgeSysNew { d with deployed := [] } { s2 with contracts := cs4, storage := stor }
+  return { sA with
+    hStorage := Map.delAll s2.hStorage (histKeys n (Map.keys d.storage)),
+    hNonce := Map.delAll (Map.delAll s2.hNonce (histKeys1 n (Map.keys d.nonces))) (histKeys1 n (Map.keys d.deployed)),
+    hClass := Map.delAll (Map.delAll s2.hClass (histKeys1 n (Map.keys d.replaced))) (histKeys1 n (Map.keys d.deployed)) }
+
+/-- `State.Revert` of either backend: verify the new root, build the reverse diff, revert
+classes, contracts and logs, verify the old root. -/
+def revertState (cfg : Cfg) (n ver : Nat) (su : SU) (casm : Map Nat CasmMeta) (s : State) : Except Err State := do
+  if rootOf ver s ≠ su.newRoot then throw .revRootNew
+  let rd ← reverseDiff cfg n su.diff s
+  let s2 ← revertClasses cfg n su.diff casm s
+  let s3 ← (if cfg.legacy then revertContractsLegacy n su.diff rd s2 else revertContractsNew n su.diff rd s2)
   if rootOf ver s3 ≠ su.oldRoot then throw .revRootOld
   return s3
 
